@@ -96,7 +96,7 @@ def classify(ctx, harnesses, results):
                 rp = confirm(ctx, h, r, keep=False)
                 r["replay"] = {k: rp.get(k) for k in ("rc", "confirmed", "note")}
                 known.append(r)
-                print("KNOWN-FINDING: property=%s %s [%s]%s" % (pid, f.get("what", h.desc), fid, "" if rp["confirmed"] else " (solver-only: %s)" % rp.get("note")))
+                print("KNOWN-FINDING: property=%s %s [%s]%s" % (pid, f.get("what", h.desc), fid, "" if rp["confirmed"] else " (solver verdict only: the native replay cannot observe it -- %s)" % rp.get("note")))
             elif v == "PROVED":
                 ctx.notes.append("known finding %s no longer reproduces (twin proved); entry can be retired" % fid)
             else:
